@@ -48,7 +48,7 @@ CLAIMS['C06'] = ('proof',
     _B_NOTE, 'contract-based deductive verification: Kani/CBMC harnesses on the real operator functions', 'DESIGN.md 5/C06')
 CLAIMS['C01'] = ('proof',
     'Kernel contracts only: the scalar semantics every query of the subset is built from (three-valued AND/OR, NULL propagation, exact integer +,-,*, comparisons) and LIMIT/OFFSET slicing are proved on the real code '
-    'against the SQL definitions written as independent spec predicates. Planner, joins, grouping, set operations and subqueries are not under contract.',
+    'against the SQL definitions written as independent spec predicates. Also under contract (Verus): the scan-level WHERE filter (unit A-filter), x [NOT] IN (list) (unit E-inlist), the row-path accumulators (A-acc). Planner, joins, grouping, set operations and subqueries are not under contract.',
     _B_NOTE, 'contract-based deductive verification: Kani/CBMC on operator kernels + Verus on apply_limit_offset', 'DESIGN.md 5/C01')
 CLAIMS['C10'] = ('proof',
     'Narrow: the one place where constraint checking is short-circuited - the append-mode tracker that lets the PRIMARY KEY check skip its duplicate lookup - is put under contract against a ghost set of the '
@@ -73,7 +73,7 @@ CLAIMS['C29'] = ('proof',
 CLAIMS['C07'] = ('proof',
     'Kernel contracts only: the row-path accumulator is proved as a STEP contract over an arbitrary pre-state (Verus, unbounded): accumulate(v) is the fold step of the SQL definition for COUNT/SUM/AVG/MIN/MAX and their DISTINCT variants, '
     'finalize is COUNT n (never NULL) / NULL iff nothing was accumulated, and COUNT over any input sequence is the number of non-NULL inputs (induction lemma); the grouping key relation is the Eq/Hash laws of SqlValue (Kani, unit T-laws); '
-    'the integer SIMD kernels of the columnar path are the same definitions (unit A-simd). group_rows, execute_with_aggregation (one row for empty input, HAVING), columnar/aggregate.rs and combine() are not under contract.',
+    'the integer SIMD kernels of the columnar path are the same definitions (unit A-simd). the columnar aggregate functions are under contract in units A-col / A-gate (see C03). group_rows, execute_with_aggregation (one row for empty input, HAVING), the f64 SIMD driver and combine() are not under contract.',
     _B_NOTE, 'contract-based deductive verification: Verus step contracts on mechanically extracted functions + Kani on the key equality/hash laws', 'DESIGN.md 5/C07')
 CLAIMS['C09'] = ('proof',
     'Narrow, kernel contracts only: the WHERE decision shared by SELECT, UPDATE and DELETE (is_truthy_basic/is_truthy_combined and the six inline decision tables of the scan paths, lifted mechanically) is proved to be ONE function of the value on every boolean/NULL/numeric value (Kani), and the primary-key fast path of UPDATE and DELETE is proved (Verus, over the real AST): extract_primary_key_lookup (both copies) answers Some([lit]) only for pkcol = lit / lit = pkcol on a single-column '
@@ -91,7 +91,7 @@ NOT_APPLICABLE = {
     'C11': 'atomicity is a frame condition over the whole Database through executors, evaluator and triggers; discharging it needs the whole executor inside the verifier',
     'C12': 'two-table history invariant enforced by four executors through evaluator and catalog; no function-sized kernel carries a clause',
     'C13': 'begin/rollback are two clone()s; the state the property worries about (index registry, caches) is outside their frame - an absent assignment cannot be refuted by a contract on these functions',
-    'C15': 'the mirror invariant lives in HashMap<Vec<SqlValue>,_> maintenance code: infeasible in CBMC (2-entry map > 10 min) and outside the Verus-accepted subset without rewriting it into a model',
+    'C15': 'the mirror invariant lives in HashMap<Vec<SqlValue>,_> maintenance code (table/indexes.rs, database/indexes): infeasible in CBMC (2-entry map > 10 min) and outside the Verus-accepted subset without rewriting it into a model. Only the Table-level protocol over ASSUMED IndexManager contracts is proved (unit K-table, counted under C09/C10, not as a decision of C15)',
     'C16': 'DiskBacked arms need a live BTreeIndex over file I/O inside HashMap-iterating closure-heavy maintenance bodies; cannot be extracted mechanically',
     'C19': 'String/chars()/lines() scanners: Verus has no str iteration theory; CBMC cannot get past 3 symbolic bytes (Date::from_str on 6 bytes = 25 GB)',
     'C22': 'from_str/Display go through str parsing and core::fmt padding: 3 ASCII bytes = 78 s in CBMC, 6 bytes does not finish; no str theory in Verus',
@@ -104,3 +104,23 @@ NOT_APPLICABLE = {
     'C33': 'cross-registry consistency over DDL histories through catalog + storage + executor',
     'C34': 'trigger firing counts/row images go through parser + recursive statement execution',
 }
+
+# ---- texts revised after the A-gate / A-col / A-filter / K-table / E-inlist units were built ------------------------------------------
+CLAIMS['C03'] = ('proof',
+    'Function contracts on the columnar fast path itself (Verus, all table contents and filter bitmaps, unbounded): the gate try_columnar_execution / should_use_columnar '
+    'answers only statements without HAVING, LIMIT, OFFSET, GROUP BY, DISTINCT, set operation or CTE and its answer is a function of FROM, WHERE and the select list only; '
+    'compute_columnar_aggregate yields COUNT(*) = number of selected rows (never NULL) and SUM/AVG/MIN/MAX NULL iff the column has no selected non-NULL value on the SIMD-integer, '
+    'SIMD-float (assumed) and scalar paths; compute_sum / compute_avg / count_non_null / compute_min / compute_max and the integer batching driver simd_aggregate_i64 are proved '
+    'against the SQL definitions (exact integer sum, minimum / maximum, division by the number of non-NULL values), on top of the kernel contracts of unit A-simd; the scan-level '
+    'filter (extract_predicates_recursive, evaluate_predicate, create_filter_bitmap) selects exactly the rows on which the WHERE fragment is TRUE. NOT under contract: '
+    'simd_aggregate_f64 and the f64 kernels (structural contract assumed), extract_aggregates / compute_expression_aggregate (planning of COUNT(col) and SUM(a*b)), '
+    'execute_columnar_aggregate (glue), float arithmetic (uninterpreted), equality of result TYPES with the row path (SUM is Double here).',
+    _B_NOTE, 'contract-based deductive verification: Verus on mechanically extracted functions (loop invariants, induction lemmas) - units A-gate, A-col, A-filter, A-simd', 'DESIGN.md 5/C03, 9b')
+CLAIMS['C06'] = ('proof',
+    'Kernel contracts plus the two row filters that sit in front of them: (Kani) AND/OR are the Kleene tables and reject non-Boolean operands, every non-logical operator maps a '
+    'NULL operand to NULL, comparisons return only Boolean/NULL and are the mathematical relation; (Verus) the table-scan predicate filter used by every single-table SELECT with a '
+    'simple WHERE - extract_predicates_recursive accepts only forms with a defined meaning and its predicates hold on a row exactly when the WHERE expression is TRUE (NULL operands '
+    'never TRUE, literal-first comparisons mirrored, BETWEEN SYMMETRIC / NOT BETWEEN not taken as plain BETWEEN), evaluate_predicate, create_filter_bitmap; eval_in_list is the '
+    'three-valued x [NOT] IN (list) for every list length (linear and HashSet branch); the index range extraction is sound for BETWEEN [SYMMETRIC] (unit I-range). '
+    'NOT under contract: the OR predicate tree, CompiledWhereClause (vectorized path), join / subquery predicates, and that every scan path applies these functions to every row.',
+    _B_NOTE, 'contract-based deductive verification: Kani/CBMC harnesses on the real operator functions + Verus on the extracted filter / IN-list functions', 'DESIGN.md 5/C06, 9b')
